@@ -23,7 +23,7 @@ func TestC13_Boosts(t *testing.T) {
 	rec := stat.For("C13")
 	rec.Rule("(A) databases x queries x boost maps (1-3 words from the vocabulary incl. words absent from query and documents, factors in [1,5]) x NLP on/off x fuzzy on/off, Limit >= N: paired SearchUniversal with and without ContextBoosts. Oracle: same result set; a command none of whose fields contains a boosted word keeps its score bit-for-bit; a command that contains one never scores lower. Non-trivial = a boosted word occurs in the query and in some but not all results.")
 	rapid.Check(t, func(t *rapid.T) {
-		cmds, cls := gen.DB(t, gen.CmdOpts{Platforms: true}, []int{0, 1, 3, 10, 1})
+		cmds, cls := gen.DB(t, gen.CmdOpts{Platforms: true, Sized: true, Heavy: true}, []int{0, 1, 3, 10, 1})
 		db := gen.Load(t, cmds)
 		warmUp(t, db, cmds)
 		q, qc := gen.Query(t, cmds, []gen.QueryClass{"vocab", "vocab", "vocab", "nlp", "nlp", "mixed", "typo", "long"})
